@@ -40,7 +40,7 @@ type BinomialDistribution struct {
 /* -------------------------------------------------------------------------- */
 
 func NewBinomialDistribution(theta Scalar, n int) (*BinomialDistribution, error) {
-  if theta.GetFloat64() < 0.0 || theta.GetFloat64() > 1.0 || n < 0 {
+  if !(theta.GetFloat64() >= 0.0 && theta.GetFloat64() <= 1.0) || n < 0 {
     return nil, fmt.Errorf("invalid parameters")
   }
   t := theta.Type()
